@@ -38,7 +38,7 @@ def vocabulary(tier):
     variants = {
         'KQuestion': [],
         'KAddress': [dict(address=b'\x01\x02\x03\x05'), dict(scope_id=1), dict(scope_id=2), dict(scope_id=0),
-                     dict(address=b'')],
+                     dict(address=b''), dict(address=b'\xa9\xfe\x01\x02')],       # (the last: an IPv4 link-local address)
         'KHinfo': [dict(cpu='CPU'), dict(os='OS'), dict(cpu='os', os='cpu'), dict(cpu='')],
         'KPointer': [dict(alias='X._T._TCP.local.'), dict(alias='y._t._tcp.local.'), dict(alias='')],
         'KText': [dict(text=b'\x03a=c'), dict(text=b''), dict(text=b'x._t._tcp.local.')],
@@ -244,6 +244,18 @@ def run(ctx):
             if len(olds) != 1 or olds[0] is None or len(entries) != 1:
                 cache_fails.append((i, age, f"an equal record arriving {age} ms after its cached copy (TTL {d['ttl']} s) was handed to the listeners with "
                                             f"old={olds}, and the cache then holds {len(entries)} entries for it"))
+    # ... and the records a ServiceInfo stands for are compared with their wire and cache copies too: an A or AAAA record built for a service
+    # (with or without interface_index) is the same record as the plain one with that name, type, class and address
+    from zeroconf import DNSAddress, ServiceInfo
+    v4a, v6a = b'\x0a\x00\x00\x01', bytes([0xfe, 0x80] + [0] * 13 + [1])
+    for idx_ in (None, 3):
+        info_ = ServiceInfo('_t._tcp.local.', 'x._t._tcp.local.', port=80, addresses=[v4a, v6a], server='h.local.', interface_index=idx_)
+        for r_ in info_.dns_addresses():
+            plain = DNSAddress('h.local.', r_.type, 0x8001, r_.ttl, r_.address)
+            ctx.count(('info-record', idx_, r_.type), nontrivial=True)
+            if not (r_ == plain and hash(r_) == hash(plain) and r_ in {plain}):
+                cache_fails.append((0, 0, f"ServiceInfo(interface_index={idx_}) stands for {r_!r}, which is not the same record as {plain!r} "
+                                          f"(its copy in every cache and known-answer list)"))
     for i, age, why in cache_fails[:3]:
         ctx.violation({'kind': 'oracle', 'a': jsonable(vocab[i]), 'age_ms': age, 'why': why, 'broken': ctx.build_msg if not ok else None})
     for i, sc_, why in wire_fails[:3]:
